@@ -9,6 +9,10 @@ STREAMS = {
 _REF = ("Reference = lean/LachesisVerif/Spec/Lachesis.lean: an independent naive implementation of the Lachesis rules written from the "
         "rule text (graph ancestry, fork = equal-seq pair, graph forkless cause, frame rule, round-1 votes, weighted majority with ties = yes, "
         "decision on quorum, Atropos by canonical order). ")
+_MODEL = ("The driver also runs, in lock-step on every op, the implementation-level models Model/Election.lean + Model/Orderer.lean (ProcessRoot, "
+          "chooseAtropos, calcFrameIdx, handleElection, bootstrapElection, processKnownRoots, onFrameDecided; kernels regenerated from abft/) and "
+          "Model/Vec.lean (fillGlobalBranchID, fillEventVectors, CollectFrom, fork detection, LowestAfter DFS, GatherFrom, forklessCause; kernels "
+          "regenerated from vecengine/vecfc) and flags any difference between real code, these models and the reference. ")
 _STREAM = ("Correspondence stream `cons`: 2–3 real IndexedLachesis instances over vecfc.Index (exported API only, roots/vector caches of sizes "
            "0,1,small,default), 1–7 validators, forks by cheaters below 1/3 (fork-of-fork, seq-1 restarts), lagging parents, each instance its own "
            "random parents-first order, speculative builds, wrong-frame twins, restarts at random event boundaries, seals at arbitrary frames; every "
@@ -19,7 +23,7 @@ _NOTE = ("Trusted: Lean kernel; harness + diff; the reference implementation is 
 
 def _p(claim, props=None, level="other"):
     d = {"props": props or [], "streams": ["cons"], "claim": claim, "note": _NOTE, "level": level,
-         "explanation": _REF + _STREAM,
+         "explanation": _REF + _MODEL + _STREAM,
          "trusted": ["reference implementation Spec/Lachesis.lean (reading of the rule text)", "harness stream cons"],
          "assumptions": ["cheaters hold < 1/3 of the weight in generated scenarios"]}
     return d
@@ -29,11 +33,19 @@ PROPS = {
     "C01": _p("Every instance's accept/reject decisions, blocks and epoch transitions are compared with the graph-level reference, which is "
               "order-free by construction; instances process the same events in different random parents-first orders. No theorem yet links the "
               "implementation model to the reference (see DESIGN: C10 lemma chain) - correspondence only."),
-    "C02": _p("Each block's delivered set and ApplyEvent call count are compared with 'ancestry of the Atropos minus everything delivered before' "
-              "computed by the reference; frames consecutive from 1; Atropos is a root of the frame (reference picks it among roots)."),
+    "C02": _p("Proof (partial): the explicit-stack DFS of confirmEvents, started on an ancestor-closed confirmed set, delivers exactly the Atropos' "
+              "ancestry minus what was confirmed, each event once, and leaves an ancestor-closed set; decided frames are frameToDecide and onFrameDecided "
+              "moves to the next frame / FirstFrame after a seal. Not proved: termination of the Go loop, 'Atropos is a root of the frame'. "
+              "Correspondence: each block's delivered set and ApplyEvent call count are compared with 'ancestry of the Atropos minus everything delivered before' "
+              "computed by the reference; frames consecutive from 1; Atropos is a root of the frame (reference picks it among roots).",
+              props=["LachesisVerif.Props.C02"], level="proof"),
     "C03": _p("Cheater lists compared with the canonical-order list of validators having an equal-seq pair in the Atropos' ancestry."),
-    "C04": _p("Build results compared with the highest allowed frame (cap 100) and Process accept/reject with the frame rule of the reference, "
-              "including under-claimed and over-claimed frames and events built but never processed."),
+    "C04": _p("Proof: on the model of calcFrameIdx/checkAndSaveEvent (loop condition, cap +100, f==0->1, final comparison regenerated) Process accepts "
+              "exactly the allowed frames, Build returns the greatest allowed frame <= spf+100, built-then-processed is accepted, roots are registered for "
+              "exactly the frames (spf, frame]; for an arbitrary quorum predicate. That the predicate is the graph one regardless of earlier builds is "
+              "covered by correspondence: Build results compared with the highest allowed frame (cap 100) and Process accept/reject with the frame rule of the reference, "
+              "including under-claimed and over-claimed frames and events built but never processed.",
+              props=["LachesisVerif.Props.C04"], level="proof"),
     "C05": _p("ForklessCause answers compared with the graph definition for random pairs, under every indexing order and cache size."),
     "C06": _p("Merged highest-before vectors (both accessors) compared with fork/max-seq of the graph definition."),
     "C07": _p("Speculative builds and rejected wrong-frame events are injected on the builder instance only; the other instances never see them; "
@@ -43,7 +55,11 @@ PROPS = {
     "C09": _p("Proof (reference level): a Process call that emits a sealed block ends with it and leaves exactly the fresh state of the next "
               "epoch with the requested set (= the state a direct Reset produces, hence identical continuations). Correspondence: seals at arbitrary "
               "frames with mutated/unchanged sets on the real code.", props=["LachesisVerif.Props.C09"], level="proof"),
-    "C10": _p("Accepted frames and emitted blocks of the real code equal those of the independent reference implementation on every generated "
-              "event set (forks below one third)."),
-    "C33": _p("GetFrameRoots compared with the set of registered roots of the reference for cache sizes 0/1/small/default, across epoch switches."),
+    "C10": _p("Proof (partial): Atropos choice rule, vote rule (tie = yes, decision on quorum), round arithmetic on the election model with regenerated "
+              "kernels, and L1 (two quorums share a never-forking validator when forkers hold < 1/3). Not proved: the induction L2-L5 lifting these to "
+              "'model blocks = reference blocks'. Correspondence (three-way): accepted frames and emitted blocks of the real code equal those of the independent reference implementation on every generated "
+              "event set (forks below one third).", props=["LachesisVerif.Props.C10"], level="proof"),
+    "C33": _p("Proof: for every history of addRoot/GetFrameRoots/epoch switches and EVERY cache eviction policy, GetFrameRoots f returns exactly "
+              "the roots registered for f in the current epoch; a new epoch starts empty (key layout abstracted to records, injectivity is C32). "
+              "Correspondence: GetFrameRoots compared with the set of registered roots of the reference for cache sizes 0/1/small/default, across epoch switches."),
 }
